@@ -394,4 +394,10 @@ def rule_release(ctx):
     ctx.borrow(rule_detach, {"C12.DETACH": "C19.RELEASE"})   # a garbage transfer argument fails in open(): the detached data stream must already be protected
 
 
-RULES = [rule_funnel, rule_nodrop, rule_srv, rule_eof, rule_dot, rule_release, rule_noswallow]
+def rule_borrowed_r4(ctx):
+    from .c14 import rule_cm
+    ctx.rule("C19.CM", "a parser's ValueError reaches the parser chain: no context manager on the way (`with setlocale(...)`) swallows it (shared with C14.CM)")
+    ctx.borrow(rule_cm, {"C14.CM": "C19.CM"})
+
+
+RULES = [rule_funnel, rule_nodrop, rule_srv, rule_eof, rule_dot, rule_release, rule_noswallow, rule_borrowed_r4]
